@@ -121,6 +121,7 @@ type conv struct {
 	Realms         []realmDesc `json:"realms"`
 	History        []string    `json:"history"`
 	tainted        bool
+	sharedHeaders  bool // the caller reuses one header map per host across its sequential calls
 	usedNewRefresh map[string]bool
 	newRefresh     map[string]bool
 }
@@ -128,7 +129,7 @@ type conv struct {
 var lifeProfiles = [][]int{{-1}, {0}, {60}, {1, 2, 3}, {-1, 0, 1, 2, 3, 60}, {2, 3}, {3}, {1}}
 
 func newConv(run *evid.Run, rng *rand.Rand) *conv {
-	cv := &conv{run: run, rng: rng, w: authsim.NewWorld(rng), shadow: map[string][]cached{}, usedNewRefresh: map[string]bool{}, newRefresh: map[string]bool{}}
+	cv := &conv{run: run, rng: rng, w: authsim.NewWorld(rng), shadow: map[string][]cached{}, usedNewRefresh: map[string]bool{}, newRefresh: map[string]bool{}, sharedHeaders: rng.IntN(2) == 0}
 	w := cv.w
 	for _, rh := range []string{realmT1, realmT2} {
 		rl := &authsim.Realm{Host: rh}
@@ -566,6 +567,11 @@ func (cv *conv) one(step time.Duration) {
 	ociauth.VerifAdvance(step)
 	at := authsim.Now()
 	spec := cv.genCall()
+	// in every other conversation the caller reuses one header map per host for its sequential calls
+	spec.SharedHeader = cv.sharedHeaders
+	if spec.SharedHeader {
+		cv.run.Count("calls_with_reused_header_map", 1)
+	}
 	shadow := append([]cached(nil), cv.shadow[spec.Host]...)
 	cv.run.Journal("C10 call %+v", spec)
 	res := cv.w.Do(cv.tr, spec)
